@@ -443,8 +443,13 @@ func (c *Ctx) rangeOf(t types.Type, s string, alloc string) string {
 		if _, ok := t.(*types.TypeParam); ok {
 			return "true"
 		}
+		impl := "true"
+		if u.NumMethods() > 0 {
+			// a non-nil value of a non-empty interface type has a dynamic type implementing it
+			impl = sImp(sNot(sEq(sx("vtag", s), "0")), sx(c.implPred(t), sx("vtag", s)))
+		}
 		return sAnd(sLe("0", sx("vtag", s)), c.rangeOf(types.Typ[types.String], sx("vstr", s), alloc),
-			sImp(sEq(sx("vtag", s), "0"), sEq(s, "nilval")))
+			sImp(sEq(sx("vtag", s), "0"), sEq(s, "nilval")), impl)
 	}
 	return "true"
 }
